@@ -1279,6 +1279,27 @@ class Lo(Expr):
         return relocate_lo(value)
 
 
+# value of an expression as a signed 32-bit integer
+class Signed32(Expr):
+
+    def __init__(self, expr):
+        self.expr = expr
+
+    def __repr__(self):
+        s = '{}({!r})'
+        s = s.format(type(self).__name__, self.expr)
+        return s
+
+    def __str__(self):
+        s = '{}'
+        s = s.format(self.expr)
+        return s
+
+    def eval(self, position, env, line):
+        value = self.expr.eval(position, env, line)
+        return c_int32(value).value
+
+
 # base class for assembly "things"
 class Item(abc.ABC):
 
@@ -3022,7 +3043,9 @@ def transform_pseudo_instructions(items, constants, labels):
             value = imm.eval(position, env, item.line)
             value = c_int32(value).value  # signed imm
             if value >= (-2**11) and value <= (2**11 - 1):
-                inst = ITypeInstruction(item.line, 'addi', rd=rd, rs1='x0', imm=Lo(imm))
+                # (not %lo: should a label move the value out of the 12-bit range after
+                # this choice, the encoder has to refuse it rather than wrap it silently)
+                inst = ITypeInstruction(item.line, 'addi', rd=rd, rs1='x0', imm=Signed32(imm))
                 # shrink all subsequent labels by 4
                 new_labels = {k: v - 4 for k, v in labels.items() if v > position}
                 labels.update(new_labels)
